@@ -151,6 +151,9 @@ func analyzeLoops(fn *ssa.Function) (map[*ssa.BasicBlock]*loopInfo, []*ssa.Basic
 				if _, isDbg := in.(*ssa.DebugRef); isDbg {
 					continue
 				}
+				if _, isPhi := in.(*ssa.Phi); isPhi {
+					continue // a phi carries the position of its variable's declaration
+				}
 				p := in.Pos()
 				if !p.IsValid() || (bodyLo.IsValid() && (p < bodyLo || p > bodyHi)) {
 					continue
@@ -182,6 +185,11 @@ func analyzeLoops(fn *ssa.Function) (map[*ssa.BasicBlock]*loopInfo, []*ssa.Basic
 		}
 	}
 	walk(nil)
+	if os.Getenv("GOVC_TRACE") != "" {
+		for _, li := range list {
+			fmt.Fprintf(os.Stderr, "loop %s ordinal %d header %d pos %d parent %v\n", fn.Name(), li.ordinal, li.header.Index, li.pos, li.parent != nil)
+		}
+	}
 	// reverse post-order ignoring back edges
 	visited := map[*ssa.BasicBlock]bool{}
 	var post []*ssa.BasicBlock
